@@ -498,8 +498,9 @@ def gen_vocab_case(rng, lang: L) -> dict:
 # sources typed from several tools)
 def fixed_languages():
     spec = {"bases": [["A", None], ["B", "A"], ["C", None], ["D", None]],
-            "compounds": [["F", [True]]],
+            "compounds": [["F", [True]], ["G", [True, True]]],
             "ops": [
+                ["pair2", "lambda x, y: (x ** y ** G(x, y))[x << [A, C], y << [C, D]]", None, None],
                 ["f", "A ** A", None, "doc"],
                 ["g", "A ** A ** A", None, None],
                 ["h", "(A ** A) ** A ** A", None, None],
@@ -522,7 +523,7 @@ def fixed_languages():
             "fc": dict(kind="m", params=["C"], res="A"), "fd": dict(kind="m", params=["D"], res="A"),
             "idx": dict(kind="i", params=["x"], res="x", bound="A"),
             "two": dict(kind="e", params=None, res=None), "three": dict(kind="e", params=None, res=None),
-            "mut": dict(kind="e", params=None, res=None), "wild": dict(kind="q", params=None, res=None),
+            "mut": dict(kind="e", params=None, res=None), "wild": dict(kind="q", params=None, res=None), "pair2": dict(kind="e", params=None, res=None),
             "cmp": dict(kind="c", params=["A"], res="A")}
     lang = L(spec, meta)
     full = {}
@@ -536,6 +537,9 @@ def fixed_languages():
         {"kind": "expr", "n_inputs": 1, "exprs": ["m f (g 1) (idx (1: B))", "g 1 (cmp 1)"], "primitive": True, "flags": full},
         {"kind": "expr", "n_inputs": 2, "exprs": ["two 1 2", "three 1 2", "idx -", "wild (1: B)"], "primitive": True, "flags": mini},
         {"kind": "expr", "n_inputs": 1, "exprs": ["g (f 1) (g (f 1) (-: A))"], "primitive": True, "flags": mini},
+        # two unresolved variables, each with its own pending constraint, in one label
+        {"kind": "expr", "n_inputs": 2, "exprs": ["pair2 1 2"], "primitive": True, "flags": mini},
+        {"kind": "expr", "n_inputs": 2, "exprs": ["pair2 2 1", "pair2 1 2"], "primitive": False, "flags": mini},
         {"kind": "expr", "n_inputs": 2, "exprs": ["late 1 (f 2) (- : A) f", "late (g 1 2) 1 (f 1) (h (late 1 2 1 f))"],
          "primitive": True, "flags": mini},
         {"kind": "workflow", "sources": ["s0", "s1"], "passthrough": True, "with_vocab": False, "flags": full,
